@@ -1,8 +1,9 @@
 package props
 
 import (
-	"math/rand"
 	"fmt"
+	"math/rand"
+	"strings"
 
 	"verifharness/adapt"
 	"verifharness/mon"
@@ -16,7 +17,7 @@ type c13 struct{ base }
 
 func init() {
 	runner.Register(&c13{base{id: "C13", level: "exploration",
-		rule: "R1 injectivity, exhaustive over a hostile pool: ALL ordered pairs of distinct (hash, range) tuples built from 17 near-colliding strings (a, a.b, b.c, a., ., a.b.c, a..b, \\, a\\.b …) for S/S, plus hash-only S, N/S, S/N, N/N, B/B and B/S schemas and three schemas over numeral-looking strings (1, 1.0, 1.00, 01, 1e0, 007 …) next to number parts with the same text: Put(k1,v1); Put(k2,v2); Get(k1)=v1; Get(k2)=v2; Scan has 2 items; Delete(k1) leaves k2. Thorough adds seeded random byte-string keys (any bytes incl. '.', NUL, backslash, UTF-8). R1c: all 783 pairs of S/S keys over the alphabet {a . \\} (parts of 1-3 characters) that collide under one of seven plausible-but-wrong composite-key encodings (naive join, partial escaping, conditional escaping, concatenation). R1b equal keys: a number key part written in two notations of one value (12 notation pairs, the other key part equal to either text) addresses one item (Get, overwrite, Scan count, Delete). R2 malformed keys, exhaustive: {missing hash, missing range, wrong type x the 9 other types} x {Put, Get, Update, Delete, BatchWrite, BatchGet} x both adapters must be rejected with a validation error. R3 every update action kind naming the hash or range attribute (bare and through #alias) on present and absent items: admissible = rejected or ignored, never an item whose key attributes differ from the key it is stored under. non-trivial = the two keys share a character with the internal separator or are prefix-related (R1), the request is malformed (R2), the update names a key attribute (R3); distinct by (schema, key pair) / (op, defect) / (action, attr).",
+		rule:        "R1 injectivity, exhaustive over a hostile pool: ALL ordered pairs of distinct (hash, range) tuples built from 17 near-colliding strings (a, a.b, b.c, a., ., a.b.c, a..b, \\, a\\.b …) for S/S, plus hash-only S, N/S, S/N, N/N, B/B and B/S schemas and three schemas over numeral-looking strings (1, 1.0, 1.00, 01, 1e0, 007 …) next to number parts with the same text: Put(k1,v1); Put(k2,v2); Get(k1)=v1; Get(k2)=v2; Scan has 2 items; Delete(k1) leaves k2. Thorough adds seeded random byte-string keys (any bytes incl. '.', NUL, backslash, UTF-8). R1c: all 783 pairs of S/S keys over the alphabet {a . \\} (parts of 1-3 characters) that collide under one of seven plausible-but-wrong composite-key encodings (naive join, partial escaping, conditional escaping, concatenation). R1b equal keys: a number key part written in two notations of one value (12 notation pairs, the other key part equal to either text) addresses one item (Get, overwrite, Scan count, Delete). R2 malformed keys, exhaustive: {missing hash, missing range, wrong type x the 9 other types} x {Put, Get, Update, Delete, BatchWrite, BatchGet} x both adapters must be rejected with a validation error. R3 every update action kind naming the hash or range attribute (bare and through #alias) on present and absent items: admissible = rejected or ignored, never an item whose key attributes differ from the key it is stored under. non-trivial = the two keys share a character with the internal separator or are prefix-related (R1), the request is malformed (R2), the update names a key attribute (R3); distinct by (schema, key pair) / (op, defect) / (action, attr).",
 		assumptions: commonAssumptions}})
 }
 
@@ -115,7 +116,7 @@ var c13MalformedList []c13Malformed
 func init() {
 	c13BuildPairs()
 	for _, op := range []string{"put", "get", "update", "delete", "batchwrite", "batchget", "put-cond-false", "update-cond-false", "delete-cond-false", "put-cond-true", "query-start-key", "scan-start-key"} {
-		for _, d := range []string{"missing-hash", "missing-range", "empty-key", "hash-empty-value", "range-empty-value"} {
+		for _, d := range []string{"missing-hash", "missing-range", "empty-key", "hash-empty-value", "range-empty-value", "surplus-attribute"} {
 			c13MalformedList = append(c13MalformedList, c13Malformed{op, d})
 		}
 		for _, k := range val.AllKinds {
@@ -316,6 +317,7 @@ func (p *c13) RunCase(ctx *runner.Ctx) runner.CaseResult {
 		}
 	case ctx.Case < blocks+2:
 		p.malformed(x, adapt.Adapters[ctx.Case-blocks], ctx)
+		p.numberKeys(x, adapt.Adapters[ctx.Case-blocks], ctx)
 	case ctx.Case < blocks+4:
 		p.keyUpdates(x, adapt.Adapters[ctx.Case-blocks-2], ctx)
 	case ctx.Case < blocks+6:
@@ -346,7 +348,7 @@ func (p *c13) RunCase(ctx *runner.Ctx) runner.CaseResult {
 		for k := 0; k < 50; k++ {
 			spec := c13Schemas[0].spec()
 			if k%5 == 4 {
-				spec = c13Schemas[4].spec()
+				spec = c13Schemas[5].spec() // binary keys (number keys take numerals only: numberKeys)
 			}
 			var k1, k2 val.Item
 			for {
@@ -455,6 +457,13 @@ func (p *c13) malformed(x *res, adapter string, ctx *runner.Ctx) {
 			delete(key, "r")
 		case mf.defect == "empty-key":
 			key = val.Item{}
+		case mf.defect == "surplus-attribute":
+			// a Key consists of the key attributes and nothing else ("the provided key element does not match the
+			// schema"); for the operations that take an ITEM a further attribute is of course fine
+			if strings.HasPrefix(mf.op, "put") || mf.op == "batchwrite" {
+				continue
+			}
+			key["v"] = val.Str("not a key attribute")
 		case mf.defect == "hash-empty-value":
 			// a key attribute of the declared type whose value is empty is not a valid key value
 			key["h"] = val.Str("")
@@ -529,6 +538,11 @@ func (p *c13) malformed(x *res, adapter string, ctx *runner.Ctx) {
 				continue
 			}
 		}
+		if !ok && mf.defect == "surplus-attribute" {
+			// ONE listed finding whatever the operation: the repository's own TestUpdate passes a whole item as Key
+			x.viol("surplus-key-attribute-accepted", adapter, fmt.Sprintf("[%s] %s with the key %s, which carries an attribute that is no key attribute: class %s, want a validation error", adapter, mf.op, key.Canon(), got.Class), wit)
+			continue
+		}
 		if !ok {
 			x.viol("malformed-key-not-rejected", mf.op+"/"+defectClass(mf.defect)+"/"+got.Class, fmt.Sprintf("[%s] %s with %s key %s: class %s (%s), want a validation error", adapter, mf.op, mf.defect, key.Canon(), got.Class, got.Msg), wit)
 			continue
@@ -539,6 +553,71 @@ func (p *c13) malformed(x *res, adapter string, ctx *runner.Ctx) {
 		if !val.ItemsEqual(g.Item, good) || len(s.Items) != 1 {
 			x.viol("malformed-key-changed-state", mf.op+"/"+defectClass(mf.defect), fmt.Sprintf("[%s] rejected %s with %s key changed the table", adapter, mf.op, mf.defect), wit)
 		}
+	}
+}
+
+// numberKeys: a key attribute declared N takes numbers, nothing else. Texts that are no numeral, numerals with more
+// than 38 significant digits and magnitudes outside DynamoDB's range (1E-130 .. 9.99E+125) are refused by every
+// operation - stored, they would be filed under their text (" 1" next to "1") or, beyond the range, collide with
+// another number; the numerals at the edge of the range are accepted and stay distinct.
+func (p *c13) numberKeys(x *res, adapter string, ctx *runner.Ctx) {
+	spec := adapt.TableSpec{Name: "tbl13n", Hash: "h", HashT: "N", Range: "r", RangeT: "N", Billing: "PAY_PER_REQUEST"}
+	bad := []string{"abc", "NaN", "Infinity", "-Infinity", " 1", "1 ", "1e", "e5", "0x10", "1e999", "1e127", "1e-131", "0.15e-4000", "0.5e5001", "--1", "1.2.3", "1e5e5", "1,5", "١٢", "1_000",
+		"1234567890123456789012345678901234567890", "0.0000000000000000000000000000000000000012345678901234567890123456789012345678901"}
+	good := []string{"1e-130", "9.9999999999999999999999999999999999999e125", "1E+125", "-1e-130", "-9.9999999999999999999999999999999999999E125", "12345678901234567890123456789012345678", "0.00", "-0", "1e126"}
+	// "1e126" is 1 followed by 126 zeros = 10^126 > 9.99E+125: out of range - moved to bad below
+	good = good[:len(good)-1]
+	bad = append(bad, "1e126")
+	for _, part := range []string{"h", "r"} {
+		for _, numeral := range bad {
+			for oi, opn := range []string{"put", "get", "update", "delete", "batchwrite"} {
+				cl, _, ds := freshClient(adapter, spec)
+				if ds != nil {
+					return
+				}
+				key := val.Item{"h": val.Num("1"), "r": val.Num("2")}
+				key[part] = val.V{K: val.KN, Str: numeral}
+				var op adapt.Op
+				switch opn {
+				case "put":
+					it := key.Clone()
+					it["v"] = val.Str("x")
+					op = adapt.Op{Kind: adapt.OpPut, Table: spec.Name, Item: it}
+				case "get":
+					op = adapt.Op{Kind: adapt.OpGet, Table: spec.Name, Key: key}
+				case "update":
+					op = mon.SetUpdate(spec.Name, key, "v", val.Str("x"))
+				case "delete":
+					op = adapt.Op{Kind: adapt.OpDelete, Table: spec.Name, Key: key}
+				default:
+					it := key.Clone()
+					op = adapt.Op{Kind: adapt.OpBatchWrite, Batch: []adapt.BatchEntry{{Table: spec.Name, Put: it}}}
+				}
+				got := cl.Do(op)
+				x.r.Evals++
+				x.fp(true, "numberkey|%s|%s|%s|%d", adapter, part, numeral, oi)
+				if got.Class != adapt.ClsValidation && got.Class != adapt.ClsParam {
+					n := cl.Do(adapt.Op{Kind: adapt.OpScan, Table: spec.Name})
+					x.viol("number-key-not-a-number", opn+"/"+part, fmt.Sprintf("[%s] %s with the %s key value N %q: class %s (%s), want a validation error; the table now holds %d items", adapter, opn, part, numeral, got.Class, got.Msg, len(n.Items)),
+						map[string]interface{}{"adapter": adapter, "op": op, "outcome": got})
+				}
+			}
+		}
+	}
+	cl, _, ds := freshClient(adapter, spec)
+	if ds != nil {
+		return
+	}
+	for i, numeral := range good {
+		it := val.Item{"h": val.V{K: val.KN, Str: numeral}, "r": val.Num("0"), "v": val.Str(fmt.Sprint("item", i))}
+		if got := cl.Do(adapt.Op{Kind: adapt.OpPut, Table: spec.Name, Item: it}); got.Class != adapt.ClsOK {
+			x.viol("valid-number-key-rejected", "put", fmt.Sprintf("[%s] PutItem with the key value N %q, a number at the edge of the range: %s %s", adapter, numeral, got.Class, got.Msg), nil)
+		}
+		x.r.Evals++
+	}
+	// "0.00" and "-0" are one key; every other numeral of the list is a key of its own
+	if n := cl.Do(adapt.Op{Kind: adapt.OpScan, Table: spec.Name}); len(n.Items) != len(good)-1 {
+		x.viol("edge-number-keys-collide", adapter, fmt.Sprintf("[%s] %d numerals at the edge of the number range (two of them zero) were put under %d keys, want %d", adapter, len(good), len(n.Items), len(good)-1), nil)
 	}
 }
 
